@@ -132,3 +132,69 @@ Theorem C04_ternary_stack_machine_flip_bounds : forall A B C fa fb fc fo op,
    flip_ok (nvars A) fa && flip_ok (nvars A) fb && flip_ok (nvars A) fc && flip_ok (nvars A) fo = false).
 Proof. exact Proofs.Apply3Stack.fused_ternary_flip_op_stack_panic_iff. Qed.
 Print Assumptions C04_ternary_stack_machine_flip_bounds.
+
+(* ---- "fused = separate steps" for the TERNARY operator (C04_fused_eq_unfused is the binary one): flipping each operand with
+   the stand-alone single-operand flip `flip_opt`, applying `ternary_op`, then flipping the output yields the very array of the
+   fused call.  For the compositional model no hypothesis on the table is needed (it reads the table through conn3 only); for
+   the order-faithful engine (Model/Apply3.v) the table is total and consistent. ---- *)
+From BddVerif Require Proofs.GapsFlip.
+
+Theorem C04_fused_ternary_eq_unfused : forall A B C fa fb fc fo op,
+  wf A -> wf B -> wf C -> nvars A = nvars B -> nvars B = nvars C ->
+  (flip_ok (nvars A) fa && flip_ok (nvars A) fb && flip_ok (nvars A) fc && flip_ok (nvars A) fo = true) ->
+  forall A' B' C' R U,
+    flip_opt fa A = Ok A' -> flip_opt fb B = Ok B' -> flip_opt fc C = Ok C' ->
+    ternary_op A' B' C' op = Ok R -> flip_opt fo R = Ok U ->
+    fused_ternary_flip_op A B C fa fb fc fo op = Ok U.
+Proof. exact GapsFlip.fused_ternary_eq_unfused. Qed.
+Print Assumptions C04_fused_ternary_eq_unfused.
+
+(* the separate steps always succeed under the same hypotheses *)
+Theorem C04_unfused_ternary_total : forall A B C fa fb fc fo op,
+  wf A -> wf B -> wf C -> nvars A = nvars B -> nvars B = nvars C ->
+  (flip_ok (nvars A) fa && flip_ok (nvars A) fb && flip_ok (nvars A) fc && flip_ok (nvars A) fo = true) ->
+  exists A' B' C' R U, flip_opt fa A = Ok A' /\ flip_opt fb B = Ok B' /\ flip_opt fc C = Ok C' /\
+    ternary_op A' B' C' op = Ok R /\ flip_opt fo R = Ok U /\
+    wf A' /\ wf B' /\ wf C' /\ Canonical U /\ nvars U = nvars A /\
+    forall v, eval U v = conn3 op (eval A (oflip fa (oflip fo v))) (eval B (oflip fb (oflip fo v)))
+                                  (eval C (oflip fc (oflip fo v))).
+Proof. exact GapsFlip.unfused_ternary_total. Qed.
+Print Assumptions C04_unfused_ternary_total.
+
+(* the order-faithful engine: ternary_op_faithful / fused_ternary_flip_op_faithful *)
+Theorem C04_fused_ternary_engine_eq_unfused : forall A B C fa fb fc fo op,
+  wf A -> wf B -> wf C -> nvars A = nvars B -> nvars B = nvars C ->
+  (flip_ok (nvars A) fa && flip_ok (nvars A) fb && flip_ok (nvars A) fc && flip_ok (nvars A) fo = true) ->
+  total3 op -> consistent3 op ->
+  forall A' B' C' R U,
+    flip_opt fa A = Ok A' -> flip_opt fb B = Ok B' -> flip_opt fc C = Ok C' ->
+    ternary_op_faithful A' B' C' op = Ok R -> flip_opt fo R = Ok U ->
+    fused_ternary_flip_op_faithful A B C fa fb fc fo op = Ok U.
+Proof. exact GapsFlip.fused_ternary_faithful_eq_unfused. Qed.
+Print Assumptions C04_fused_ternary_engine_eq_unfused.
+
+Theorem C04_unfused_ternary_engine_total : forall A B C fa fb fc fo op,
+  wf A -> wf B -> wf C -> nvars A = nvars B -> nvars B = nvars C ->
+  (flip_ok (nvars A) fa && flip_ok (nvars A) fb && flip_ok (nvars A) fc && flip_ok (nvars A) fo = true) ->
+  total3 op -> consistent3 op ->
+  exists A' B' C' R U, flip_opt fa A = Ok A' /\ flip_opt fb B = Ok B' /\ flip_opt fc C = Ok C' /\
+    ternary_op_faithful A' B' C' op = Ok R /\ flip_opt fo R = Ok U /\ Canonical U /\ nvars U = nvars A /\
+    forall v, eval U v = conn3 op (eval A (oflip fa (oflip fo v))) (eval B (oflip fb (oflip fo v)))
+                                  (eval C (oflip fc (oflip fo v))).
+Proof. exact GapsFlip.unfused_ternary_faithful_total. Qed.
+Print Assumptions C04_unfused_ternary_engine_total.
+
+(* A = x0 /\ x1, B = x1 \/ x2, C = x2 over 3 variables, flips (0, 2, 2, 1), if-then-else: every flip changes its diagram *)
+Example C04_fused_ternary_unfused_example :
+  let A := [mkNode 3 0 0; mkNode 3 1 1; mkNode 1 0 1; mkNode 0 0 2] in
+  let B := [mkNode 3 0 0; mkNode 3 1 1; mkNode 2 0 1; mkNode 1 2 1] in
+  let C := [mkNode 3 0 0; mkNode 3 1 1; mkNode 2 0 1] in
+  canonicalb A = true /\ canonicalb B = true /\ canonicalb C = true /\
+  exists A' B' C' R U,
+    flip_var A 0 = Ok A' /\ flip_var B 2 = Ok B' /\ flip_var C 2 = Ok C' /\
+    ternary_op A' B' C' ite_function = Ok R /\ ternary_op_faithful A' B' C' ite_function = Ok R /\ flip_var R 1 = Ok U /\
+    A' <> A /\ B' <> B /\ C' <> C /\ U <> R /\
+    fused_ternary_flip_op A B C (Some 0) (Some 2) (Some 2) (Some 1) ite_function = Ok U /\
+    fused_ternary_flip_op_faithful A B C (Some 0) (Some 2) (Some 2) (Some 1) ite_function = Ok U.
+Proof. exact GapsFlip.fused_ternary_unfused_example. Qed.
+Print Assumptions C04_fused_ternary_unfused_example.
